@@ -12,6 +12,7 @@ from harness.drivers.c01 import done_states
 CODE = {'f': 7, '1': 11, '2': 13, '3': 17}
 DW = {'f': 6, '1': 1, '2': 2, '3': 3}
 QW = {'f': 7, '1': 1, '2': 2, '3': 3}
+TYPESETS = ['f', '1', '2', '3', '123', 'f123']
 
 
 def run_scan(ctx, nmax):
@@ -23,7 +24,8 @@ def run_scan(ctx, nmax):
   os.makedirs(tlc.WORK, exist_ok=True)
   from harness import core
   tlc.write_cfg(cfg, constants={'N': nmax, 'NBig': 300 if nmax <= 4 else 5000, 'BigLinks': 8, 'SeedBase': core.seed_base(ctx, 55)},
-                invariants=['GroupedEqualsNaiveDown', 'GroupedEqualsNaiveUp', 'TypesScanInLinkOrder', 'OrderIsPermutation'])
+                invariants=['GroupedEqualsNaiveDown', 'GroupedEqualsNaiveUp', 'TypesScanInLinkOrder', 'OrderIsPermutation',
+                            'IndexHelpersPartition'])
   dump = os.path.join(tlc.WORK, 'c05-scan')
   res = tlc.run('Scan', cfg, name='c05-scan', dump=dump, expect_ok=True, coverage=True)
   tlc.require_coverage(res, ['Compute'], 'c05-scan')
@@ -61,6 +63,24 @@ def run_scan(ctx, nmax):
       ctx.violation(f'scan raised on parents={parents} types={typs}: {type(e).__name__}: {str(e)[:200]}', case,
                     {'call': 'scan', 'predicate': 'raised'})
       continue
+    # index helpers of base.System on the same forest
+    idx = s['out']['idx']
+    try:
+      helpers = [('dof_link', np.asarray(base.System.dof_link(sysns)).tolist(), list(idx['dof_link'])),
+                 ('dof_link(depth)', np.asarray(seg).tolist(), list(idx['dof_link_depth'])),
+                 ('dof_ranges', [list(x) for x in base.System.dof_ranges(sysns)], [list(x) for x in idx['dof_ranges']])]
+      for c, ts in enumerate(TYPESETS):
+        helpers.append((f'q_idx({ts!r})', np.asarray(base.System.q_idx(sysns, ts)).astype(int).tolist(), list(idx['q_idx'][c])))
+        helpers.append((f'qd_idx({ts!r})', np.asarray(base.System.qd_idx(sysns, ts)).astype(int).tolist(), list(idx['qd_idx'][c])))
+    except Exception as e:  # pylint: disable=broad-except
+      ctx.violation(f'System index helper raised on parents={parents} types={typs}: {type(e).__name__}: {str(e)[:200]}', case,
+                    {'call': 'System.index', 'predicate': 'raised'})
+      continue
+    for name, got, want in helpers:
+      if got != want:
+        ctx.violation(f'System.{name} on parents={parents} types={typs}: {got} != specification {want}', case,
+                      {'call': 'System.index', 'predicate': name.split('(')[0]})
+        break
     nrep += 1
     ctx.traces += 1
     nontriv = n >= 3 and len(set(parents)) > 1
